@@ -25,6 +25,7 @@ type ConcOpts struct {
 
 type csearch struct {
 	a, b int64 // batches finished before the search began / started before it ended
+	sel  []string
 	kind string
 	docs []M
 	err  string
@@ -97,10 +98,25 @@ func (r *Runner) RunConcHistory(histNo int, o ConcOpts) error {
 				}
 			}
 		}
+		// select everything, or one or two named top-level fields (the partial decoding path)
+		sel, selReq := []string{}, []string{"*"}
+		if rr.R.Intn(5) < 3 {
+			cands := []string{"x", "y"}
+			seen := map[string]bool{}
+			for _, p := range r.Cfg.Props {
+				if !seen[p.Fld()] {
+					seen[p.Fld()] = true
+					cands = append(cands, p.Fld())
+				}
+			}
+			rr.R.Shuffle(len(cands), func(i, j int) { cands[i], cands[j] = cands[j], cands[i] })
+			sel = append(sel, cands[:1+rr.R.Intn(2)]...)
+			selReq = sel
+		}
 		a := done.Load()
-		res, err := r.Shard.SearchPoints(models.SearchRequest{Query: q, Select: []string{"*"}, Limit: 100000})
+		res, err := r.Shard.SearchPoints(models.SearchRequest{Query: q, Select: selReq, Limit: 100000})
 		b := started.Load()
-		cs := csearch{a: a, b: b, kind: kind, who: who}
+		cs := csearch{a: a, b: b, kind: kind, who: who, sel: sel}
 		if err != nil {
 			cs.err = err.Error()
 		} else {
@@ -111,6 +127,8 @@ func (r *Runner) RunConcHistory(histNo int, o ConcOpts) error {
 						cs.err = "decode: " + e.Error()
 						break
 					}
+				} else if sr.DecodedData != nil {
+					m = sr.DecodedData
 				}
 				cs.docs = append(cs.docs, M{"id": IDOf(sr.Id), "f": VisibleOf(m)})
 			}
@@ -200,7 +218,7 @@ func (r *Runner) RunConcHistory(histNo int, o ConcOpts) error {
 			r.TW.Emit("Err", M{"what": "ConcurrentSearch/" + cs.kind, "err": errStr(errString(cs.err)), "a": cs.a, "b": cs.b})
 			continue
 		}
-		r.TW.Emit("CSearch", M{"a": cs.a, "b": cs.b, "kind": cs.kind, "docs": cs.docs, "who": cs.who})
+		r.TW.Emit("CSearch", M{"a": cs.a, "b": cs.b, "kind": cs.kind, "docs": cs.docs, "who": cs.who, "sel": cs.sel})
 	}
 	// after the writers finished: the sequential model, warm and cold
 	o2 := FaultOpts{Rank: o.Rank, Sample: 30}
